@@ -32,6 +32,10 @@ CHECKS = {
    technique="exhaustive enumeration of importer-database histories and gap positions (every (agent, epoch) record removed, with 0/1/2 unrelated agents) on the real importer scenario",
    text="A realtime source run writes a file DB; from it every importer DB of the family (exact set, +1/+2 unrelated agents, an agent absent, and one DB per (imported agent, epoch) with exactly that row removed, each also with +1/+2 unrelated agents) is derived and the real importer scenario (targets / sensors / both imported) is run against it: eci_state equals the DB row after every step, MissingEphemerisError is raised in exactly the step of the gap, stored observations of epoch t_k reach the estimate-update submission of their target at step k and no other (seen at the fake-ray seam), the importer file hash and logical dump are unchanged and the write API refuses.",
    note="importer DBs are SQLite files produced by resonaate's own output of a realtime run with the same start and step; default job order"),
+ "C13": dict(level="model_checking", design="§3 C13",
+   technique="bounded exhaustive lattice enumeration of (state, epoch, force configuration, batch layout) on the real derivative against an algorithmically independent force reference (verif/oracles/force_ref.py)",
+   text="The derivative returned by SpecialPerturbations._differentialEquation equals an independent reference (point mass; own-parsed normalised geopotential via Legendre functions and spherical partials; direct third-body formula in 50-digit arithmetic; cannonball SRP x two-disc visible fraction; Schwarzschild term) to a few ulp of the central term + 1e-11 of the perturbations, for every coefficient file, degree/orders up to 20 (70 thorough), every third-body subset, SRP/GR on and off, 200 km..10 Earth radii, epochs across the EOP table incl. kernel-segment edges and calendar rollovers, and (6,K) layouts; each switch adds or removes exactly its oracle term; Sun/Moon/planet positions are continuous across every Chebyshev segment edge of 2014-2022 and agree with an own Chebyshev evaluation and the Almanac Sun/Moon.",
+   note="library ECEF<->ECI rotation (C04) and double-precision Julian dates (C05) are trusted; bundled data files; no finite thrust; collision checking and dynamicsFactory not covered"),
 }
 
 NOT_APPLICABLE = {}
